@@ -198,16 +198,18 @@ fn run_case(seed: u64, mode: &str, thorough: bool, lean: &mut Lean, hist: &mut B
         while ns.len() > tries { let i = r.below(ns.len() as u64) as usize; ns.remove(i); }
         for n in ns {
             let (errno, short) = match r.below(3) { 0 => (5, None), 1 => (28, None), _ => (5, Some(1 + r.below(40))) };
-            let mut env = vec![("VERIF_SHIM_FAIL", match short { Some(k) => format!("{n}:{errno}:short={k}"), None => format!("{n}:{errno}") })];
+            // a third of the faults are transient: only this one system call fails (or is short), the device works again afterwards
+            let once = r.chance(1, 3);
+            let mut env = vec![("VERIF_SHIM_FAIL", match short { Some(k) => format!("{n}:{errno}:short={k}"), None => format!("{n}:{errno}") } + if once { ":once" } else { "" })];
             env.push(("RUST_BACKTRACE", "0".into()));
             let run = run_child(&dir, seed, rot, &env);
-            *hist.entry(format!("fault:{}", match (errno, short) { (_, Some(_)) => "short-write", (5, _) => "EIO", _ => "ENOSPC" })).or_insert(0) += 1;
+            *hist.entry(format!("fault:{}{}", match (errno, short) { (_, Some(_)) => "short-write", (5, _) => "EIO", _ => "ENOSPC" }, if once { " (transient)" } else { "" })).or_insert(0) += 1;
             if run.results.len() != w.ops.len() { fail!("impl-vs-oracle", "with syscall {n} failing the workload did not run to completion (panic?): {} of {} ops, status {:?}", run.results.len(), w.ops.len(), run.status); }
             let res: Vec<&str> = run.results.iter().map(|x| x.0.as_str()).collect();
             let first_err = res.iter().position(|x| *x != "ok");
             // model
             let seqs2: Vec<u64> = run.results.iter().map(|x| x.1).collect();
-            let fault = match short { Some(k) => format!("fail={n} short={k}"), None => format!("fail={n}") };
+            let fault = match short { Some(k) => format!("fail={n} short={k}"), None => format!("fail={n}") } + if once { " once" } else { "" };
             let (m, _) = run_model(lean, &w, &run.ids, &seqs2, &fault);
             let mres: Vec<&str> = m.iter().take(w.ops.len()).map(|x| x.0.as_str()).collect();
             if !no_model() && mres != res { fail!("model-vs-impl", "syscall {n} failing ({fault}): model results {:?} vs real {:?}", mres, res); }
